@@ -131,3 +131,54 @@ def generated_bounds(h):
                                             ('(%r if x0[%d] < %r else (%r if x0[%d] > %r else x0[%d]))' % (lo[k], k, lo[k], hi[k], k, hi[k], k)))
                             for k in range(n))
     h.check('clipped-at-the-nearest-bound', clipped, y=x, x0=x0)
+
+
+# ---------------------------------------------------------------------------- generate_constraint: coupling the solvers
+STRUCTS = [('a',), ('a', 'b'), ('a', 'b', 'c'), (('a', 'b'), 'c'), ('a', ('b', 'c')), (('a', 'b'), ('c', 'd'), ('e',)), (('a',), ('b', 'c', 'd'))]
+
+
+def _flat(t):
+    out = []
+    for x in t:
+        out.extend(_flat(x) if isinstance(x, tuple) else [x])
+    return out
+
+
+@contract('C13/generate_constraint', ['C13'], 'mystic/symbolic.py::generate_constraint', native=False)
+def generate_constraint(h):
+    """the compound constraint built from a (possibly nested) tuple of solvers -- as generate_solvers returns for a tuple
+    of constraint strings -- applies EVERY solver exactly once, each to the result of the one applied before it (default
+    coupler `inner`, join=None): none is dropped, whatever the nesting"""
+    if not h.is_sym():
+        h.unsupported('symbolic only')
+    struct = h.choice('solvers', STRUCTS)
+    one_coupler = h.choice('ctype', ['None', 'single-coupler'])
+    names = _flat(struct)
+    fns = {nm: h.fn('SOLVER_' + nm, ret='same', log='applied_' + nm) for nm in names}
+
+    def build(t):
+        return h.tup(*[build(x) if isinstance(x, tuple) else fns[x] for x in t])
+    G = h.get('mystic/symbolic.py::generate_constraint')
+    if one_coupler == 'None':
+        cf = h.call(G, build(struct))
+    else:
+        cf = h.call(G, build(struct), h.get('mystic/coupler.py::inner'))
+    x = h.vec('x', 2)
+    r = h.call(cf, x)
+    logs = {nm: h.log('applied_' + nm) for nm in names}
+    h.check('every-solver-applied-exactly-once', 'ok', ok=all(len(logs[nm]) == 1 for nm in names))
+    if all(len(logs[nm]) == 1 for nm in names):
+        # chained: each solver receives the previous one's result, starting from x.  The statement does not fix the order
+        # (the relations do not feed one another): first-to-last and last-to-first (what `inner` coupling gives) both do.
+        alts, env = [], dict(r=r)
+        for tag, order in (('rev', list(reversed(names))), ('fwd', list(names))):
+            cur = x
+            conj = []
+            for k, nm in enumerate(order):
+                env['%sarg%d' % (tag, k)] = logs[nm][0][0]
+                env['%scur%d' % (tag, k)] = cur
+                conj.append('seq_eq(%sarg%d, %scur%d)' % (tag, k, tag, k))
+                cur = h.call(h.fn('SOLVER_' + nm, ret='same'), cur)
+            env[tag + 'end'] = cur
+            alts.append('(%s and seq_eq(r, %send))' % (' and '.join(conj), tag))
+        h.check('solvers-chained-each-on-the-result-of-the-one-before-and-the-last-result-returned', ' or '.join(alts), **env)
